@@ -610,8 +610,29 @@ func topStmtBefore(rel, fn, a, b string) bool {
 
 func stmtText(n ast.Node) string {
 	var buf bytes.Buffer
+	// comments attached to declarations inside the node are not part of the statement
+	ast.Inspect(n, func(x ast.Node) bool {
+		switch d := x.(type) {
+		case *ast.GenDecl:
+			d.Doc = nil
+		case *ast.ValueSpec:
+			d.Doc, d.Comment = nil, nil
+		case *ast.TypeSpec:
+			d.Doc, d.Comment = nil, nil
+		case *ast.Field:
+			d.Doc, d.Comment = nil, nil
+		}
+		return true
+	})
 	printer.Fprint(&buf, token.NewFileSet(), n)
-	return strings.Join(strings.Fields(buf.String()), " ")
+	// a doc comment attached to a declaration statement is printed with it: drop whole-line comments
+	var keep []string
+	for _, ln := range strings.Split(buf.String(), "\n") {
+		if !strings.HasPrefix(strings.TrimSpace(ln), "//") {
+			keep = append(keep, ln)
+		}
+	}
+	return strings.Join(strings.Fields(strings.Join(keep, "\n")), " ")
 }
 
 // selectCases returns the comm clauses of the single `select` that is the whole body of `for { select { … } }`.
